@@ -1,6 +1,7 @@
 SPECIFICATION GenSpec
 CONSTANT Which = "C17"
 CONSTANT TinyLen = 8
+CONSTANT OwnTailLen = 7
 CONSTANT TailLen = 6
 CONSTANT SmallLen = 6
 CONSTANT AsBuilt = {}
